@@ -534,7 +534,7 @@ def monitor_patch_obj(ctx: fw.Ctx, o: dict) -> None:
         final = o['api'].get(o['kind'], NS, NAME)
         if norm(final) != norm(exp):
             ctx.fail('after an undisturbed patch_obj the server object is not (merge-patch, then transformations) applied to the object',
-                     case, {'server': norm(final), 'expected': norm(exp)}, sig='incomplete')
+                     case, {'server': norm(final), 'expected': norm(exp), 'patch': content, 'sent': merged_sent}, sig='incomplete')
         ctx.count('fn_monitor', 'complete-checked')
 
     # ---- neither lost nor duplicated: the (idempotent) transformations take effect exactly once, now or in the next cycle
@@ -578,13 +578,22 @@ def next_cycle(o: dict, remaining: Any) -> dict | None:
 
 
 def match_f801(f: dict) -> bool:
-    """F801: `status: None` in the merge-patch of a resource with a status subresource is popped and sent nowhere."""
+    """F801: `status: None` in the merge-patch of a resource with a status subresource is popped and sent nowhere
+    (and therefore the status is still on the server afterwards); everything else of the patch was sent."""
     c = f.get('case') or {}
-    patch = (f.get('observed') or {}).get('patch') if isinstance(f.get('observed'), dict) else None
-    sent = (f.get('observed') or {}).get('sent') if isinstance(f.get('observed'), dict) else None
-    return (f['sig'] in ('merge-part-dropped', 'incomplete-status-null') and c.get('subresource') is True and isinstance(patch, dict)
+    obs = f.get('observed') if isinstance(f.get('observed'), dict) else {}
+    patch, sent = obs.get('patch'), obs.get('sent')
+    if not (f['sig'] in ('merge-part-dropped', 'incomplete') and c.get('subresource') is True and isinstance(patch, dict)
             and 'status' in patch and patch['status'] is None and isinstance(sent, dict)
-            and sent == {k: v for k, v in patch.items() if k != 'status'})
+            and sent == {k: v for k, v in patch.items() if k != 'status'}):
+        return False
+    if f['sig'] == 'incomplete':
+        server, expected = copy.deepcopy(obs.get('server')), obs.get('expected')
+        if not isinstance(server, dict) or 'status' not in server or 'status' in (expected or {}):
+            return False
+        server.pop('status')
+        return server == expected
+    return True
 
 
 # ---------------------------------------------------------------------------------------------
@@ -827,7 +836,7 @@ def differential(ctx: fw.Ctx) -> None:
             if len(log) >= 3 and effective:
                 ctx.sample({'case': {k: v for k, v in desc.items() if k != 'level'},
                             'requests': [[x.kind, x.ctype, x.status] for x in log], 'outcome': o['how']}, limit=2)
-        ctx.differential('patch_obj', HEADER, cases, shard=150)
+        ctx.differential('patch_obj', HEADER, cases, shard=40)
 
         acases: list[fw.Case] = []
         for desc in [d for d in corpus_descs(ctx) if d.get('fn') == 'apply'] + apply_descs():
@@ -853,7 +862,7 @@ def differential(ctx: fw.Ctx) -> None:
                 ctx.count('apply_result', 'raised:' + type(o['val']).__name__)
             if len(o['sess'].log) >= 2 or o['sleeps']:
                 ctx.nontriv(['apply'] + trace_key(o) + [desc['delays'], desc['woken'], desc['touched']])
-        ctx.differential('apply', HEADER, acases, shard=150)
+        ctx.differential('apply', HEADER, acases, shard=40)
     finally:
         env.close()
 
